@@ -403,6 +403,19 @@ func (r *runner) locks() {
 						SiafundOutputs: []types.SiafundOutput{{Value: p.SiafundOutput.Value, Address: k.Addr(chain.AddrV2)}}}
 					r.probe(w, "v2 after(t) policy on a siafund input (median of last 11 timestamps, strict)", 0, int64(d), chain.Use{Name: "after-sf", V2: &t}, d < 0)
 				}
+				// with an even number of ancestors the median is a midpoint and may fall on a half second: the lock times
+				// that can be written down are whole seconds, so the whole seconds next to such a median are probed too
+				// (same address: the encoding carries seconds)
+				if whole := time.Unix(m.Add(time.Duration(d)*time.Second).Unix(), 0); !whole.Equal(m.Add(time.Duration(d) * time.Second)) {
+					for _, lock := range []time.Time{whole, whole.Add(time.Second)} {
+						pol2 := types.PolicyAfter(lock)
+						if p, ok := findSC(w, pol2.Address(), 0); ok {
+							t := types.V2Transaction{SiacoinInputs: []types.V2SiacoinInput{{Parent: p.Copy(), SatisfiedPolicy: types.SatisfiedPolicy{Policy: pol2}}},
+								SiacoinOutputs: []types.SiacoinOutput{{Value: p.SiacoinOutput.Value, Address: k.Addr(chain.AddrV2)}}}
+							r.probe(w, "v2 after(t) policy, whole-second lock next to a half-second median", 0, lock.Unix()-m.Unix(), chain.Use{Name: "after-half", V2: &t}, m.After(lock))
+						}
+					}
+				}
 			}
 		}
 		// after(t) far from the median (both directions), on siacoin and siafund inputs
@@ -695,7 +708,7 @@ func run(c *vf.Ctx) {
 	need := []string{"accept_at_or_after_bound", "reject_before_bound"}
 	for _, rule := range []string{"v1 transaction before v2 require height", "v2 transaction from v2 allow height", "v1 unlock-conditions timelock", "v2 legacy unlock-conditions policy timelock (parent height)",
 		"v2 above(h) policy (parent height)", "v1 signature timelock", "v1 unlock-conditions timelock (siafund input)", "v1 unlock-conditions timelock (contract revision)",
-		"v2 legacy unlock-conditions policy timelock on a siafund input (parent height)", "v2 above(h) policy on a siafund input (parent height)", "v2 after(t) policy on a siafund input (median of last 11 timestamps, strict)", "v2 after(t) policy (median of last 11 timestamps, strict)", "v1 formation window start >= height", "v2 formation proof height >= height",
+		"v2 legacy unlock-conditions policy timelock on a siafund input (parent height)", "v2 above(h) policy on a siafund input (parent height)", "v2 after(t) policy on a siafund input (median of last 11 timestamps, strict)", "v2 after(t) policy, whole-second lock next to a half-second median", "v2 after(t) policy (median of last 11 timestamps, strict)", "v1 formation window start >= height", "v2 formation proof height >= height",
 		"delayed output maturity (v1 spender)", "delayed output maturity (v2 spender)", "v1 revision not after window start", "v1 proof not before the window-start block exists",
 		"v2 revision not after proof height", "v2 proof only once the block at proof height is an ancestor", "v2 expiration only after expiration height", "v2 renewal new contract proof height >= height"} {
 		need = append(need, "rule_accept:"+rule, "rule_reject:"+rule)
